@@ -293,6 +293,13 @@ Definition pool_run_pids (g0 : gen) (m : mode) (n : Z) (pids : list Z) (now : Z)
 Definition pool_run_pids_orig (g0 : gen) (m : mode) (n : Z) (pids : list Z) (now : Z) (chunks : list (nat * list sched)) :=
   pool_run g0 m n (map (fun p => seed_of_orig p now) pids) chunks.
 
+(* successive pools of one run (the multilevel engine builds one pool per level and pass): each with the pids of its
+   workers, the clock value at its start, and its chunks *)
+Definition pools_samples (g0 : gen) (m : mode) (pools : list (list Z * Z * list (nat * list sched))) : list sample :=
+  flat_map (fun p => snd (pool_run_pids g0 m 0 (fst (fst p)) (snd (fst p)) (snd p))) pools.
+Definition pools_keys (pools : list (list Z * Z * list (nat * list sched))) : list (Z * Z) :=
+  flat_map (fun p => map (fun pid => (pid, snd (fst p))) (fst (fst p))) pools.
+
 (* ------------------------------------------------------------------ schedules derived from the variates' values
    val = the generators as deterministic functions of the position; nxt = the sampler / coupling logic
    of one sample: given the values the sample has seen so far (in fixed-date mode it starts with the
@@ -325,8 +332,12 @@ Section Derived.
     end.
 
   (* the schedule of a standard-engine run of n paths, as the run itself produces it *)
+  (* ... from an arbitrary state st0 of the process object (generators anywhere, deques possibly holding the rows a
+     previous pricing left behind) *)
+  Definition std_derived_from (fuel : nat) (seed : option Z) (t : Z) (m : mode) (n : nat) (st0 : state) : list sched :=
+    derive_samples n fuel (snd (run (OSeed (seed_choice seed false t) :: pre m 0 (Z.of_nat n)) st0)) 0 (m_fixed m) (-1).
   Definition std_derived (fuel : nat) (seed : option Z) (t : Z) (m : mode) (n : nat) (g : gen) : list sched :=
-    derive_samples n fuel (snd (run (OSeed (seed_choice seed false t) :: pre m 0 (Z.of_nat n)) (init g))) 0 (m_fixed m) (-1).
+    std_derived_from fuel seed t m n (init g).
   Definition std_derived_orig (fuel : nat) (seed : option Z) (t : Z) (m : mode) (n : nat) (g : gen) : list sched :=
     derive_samples n fuel (snd (run (pre m 0 (Z.of_nat n) ++ [OSeed (seed_choice_orig seed false t)]) (init g))) 0 (m_fixed m) (-1).
 End Derived.
